@@ -37,7 +37,11 @@ CLAIM = {
     "note": "Theorems over R use the standard-library real axioms (ClassicalDedekindReals.sig_forall_dec, sig_not_dec, "
             "FunctionalExtensionality.functional_extensionality_dep); the assembly theorems are generic-ring and closed "
             "under the global context. global_bounds (maximum principle) is proved for nets without heat sources in which "
-            "every node is downstream of an infeed node (graph form + pipeline form over the generated kernels); the transient branch of the kernels is not modelled; a converged (not exact) "
+            "every node is downstream of an infeed node (graph form + pipeline form over the generated kernels; the graph "
+            "hypothesis is also given in checkable form: all nodes touched by flow + acyclic flow graph, the inflow condition "
+            "being proved from the kernel's infeed definition; acyclicity itself is hydraulics and only observed by the "
+            "monitor); a concrete fixed point over R (two feeders, reverse-declared branch, mixing node) shows the hypotheses "
+            "of all pipeline theorems satisfiable; OUT OF SCOPE: the transient branch of the kernels is not modelled; a converged (not exact) "
             "solution satisfies the laws up to tol_T - covered by monitors, not by theorems; spsolve is an oracle "
             "(theorems quantify over any solution x).",
     "technique": "Coq proof over generated kernels (T-tie) + hand-written assembly model with exact model/implementation "
@@ -407,6 +411,24 @@ def monitor_net(ctx, spec, net, mode, numba, tag=""):
         has_flow[tnc[fl]] = True
         temps = list(npit[na & has_flow, inode.TINIT]) + list(bp[fl, ib.TOUTINIT])
         ctx.count("bounds_nets")
+        # hypothesis of theorem global_bounds_acyclic, observed: the flow graph of a net without pumps is acyclic
+        succ = {}
+        for a, b in zip(fnc[fl], tnc[fl]):
+            succ.setdefault(int(a), set()).add(int(b))
+        indeg = {}
+        for a in succ:
+            for b in succ[a]:
+                indeg[b] = indeg.get(b, 0) + 1
+        todo = [a for a in set(succ) | set(indeg) if indeg.get(a, 0) == 0]
+        seen = 0
+        while todo:
+            a = todo.pop()
+            seen += 1
+            for b in succ.get(a, ()):
+                indeg[b] -= 1
+                if indeg[b] == 0:
+                    todo.append(b)
+        ctx.count("flow_graph_acyclic" if seen == len(set(succ) | set(indeg)) else "flow_graph_cyclic")
         if temps and not (min(temps) >= lo - 1e-7 and max(temps) <= hi + 1e-7):
             ctx.violation({"clause": "global_bounds"},
                           "without heat sources a temperature lies outside [%.4f, %.4f] (feeds %s, ambient %s): min %.6f max %.6f"
